@@ -15,6 +15,7 @@ from simkit.rng import Rng, mix
 from worlds.threads import ThreadsWorld
 
 CYCLE_MAX = 2.0
+LATE = 0.3
 
 
 def gen_plan(seed, tier):
@@ -43,6 +44,7 @@ def gen_plan(seed, tier):
                   "recurring": r.chance(0.5),
                   "cancel_at": r.pick([None, None, 0.3, 1.2, 2.6]),
                   "stop_after": r.pick([None, None, 2])})
+  cfg["eager_waker"] = Rng(mix(seed, "eager")).chance(0.5)
   return {"prop": "C06", "seed": seed, "cfg": cfg, "steps": steps}
 
 
@@ -93,7 +95,8 @@ def _drive(sim, plan):
   overlap = []
   done = set()
   values = []       # resumed with something else than the hub's value
-  blocked = {}      # tno -> task object currently in `yield False`
+  blocked = {}      # tno -> (task object currently in `yield False`, step)
+  woken = {}        # (tno, step) -> when a foreign thread rescheduled it
   expect_dead = set()
   tasks = {}
 
@@ -123,7 +126,7 @@ def _drive(sim, plan):
             due = now + op[1]
           elif k == "block":
             y = False
-            blocked[tno] = self_
+            blocked[tno] = (self_, i)
           elif k == "raise":
             log.setdefault(tno, []).append((i, now, None))
             running[0] = None
@@ -173,9 +176,12 @@ def _drive(sim, plan):
     # time passes, then ends the run
     cancelled = set()
     for _ in range(400):
-      for tno, t in list(blocked.items()):
+      for tno, (t, i) in list(blocked.items()):
         del blocked[tno]
         sched.schedule(t)
+        # (virtual time stands still while any thread can run: the task is
+        # runnable from here on, and the scheduler has been told)
+        woken[(tno, i)] = sim.now
       for no, (tm, st) in timers.items():
         c = st.get("cancel_at")
         if c is not None and no not in cancelled and sim.now - t0 >= c:
@@ -186,7 +192,12 @@ def _drive(sim, plan):
           and len(sim.task_deaths) >= len(expect_dead)
           and sim.now - t0 > 6.0):
         break
-      eng.block(None, 0.25)
+      if cfg.get("eager_waker"):
+        # wakes the moment a task has said it is about to block: the
+        # reschedule then races the scheduler thread on its way into idle
+        eng.block(lambda: bool(blocked), 0.25)
+      else:
+        eng.block(None, 0.25)
     tw.stop_scheduler()
   eng.spawn(waker, "waker")
   fin = eng.run(wall_timeout=30.0)
@@ -228,6 +239,15 @@ def _drive(sim, plan):
       raise Violation("program-order", "task %d executed steps %r, program "
                       "has %r" % (tno, idx, want))
     for a, b in zip(got, got[1:]):
+      wk = woken.get((tno, a[0]))
+      if wk is not None:
+        sim.probes["threaded_foreign_wake"] += 1
+        if b[1] > wk + LATE + S.EPS:
+          # run because the scheduler's idle wait ran out, not because it
+          # was told: the wake-up itself was lost
+          raise Violation("lost-wakeup", "task %d, blocked at step %d, was "
+                          "made runnable by another thread at %.6f and ran "
+                          "only at %.6f" % (tno, a[0], wk - t0, b[1] - t0))
       due = a[2]
       if due is not None:
         if b[1] < due - S.EPS:
